@@ -196,3 +196,38 @@ class Run:
 
 def hh_pairs(lst):
     return [[hx(k), int(c)] for k, c in lst]
+
+
+def zipf_case(rng, ctx):
+    return {"type": "zipf", "cfg": {"kind": "hh", "width": pick(rng, [16, 70, 200]), "depth": 4, "max_key_len": pick(rng, [8, 5, 16])}, "n": 2,
+            "vocab": 1000, "stream": 6000 if ctx.quick else 25000, "seed": int(rng.integers(0, 2**31))}
+
+
+def build_zipf(case, mon):
+    """Realistic sizes (the repository's own test regime): Zipf stream over a vocabulary, several sketches, merged.
+    Returns (merged real sketch, ghost Counter by identity, cells, ids)."""
+    cfg = case["cfg"]
+    L = cfg["max_key_len"]
+    rng = np.random.default_rng(case["seed"])
+    vocab = list({bytes(rng.integers(0, 256, int(rng.integers(1, L + 3)), dtype=np.uint8)) for _ in range(case["vocab"])})
+    pz = np.arange(1, len(vocab) + 1, dtype=np.float64) ** -1.1
+    pz /= pz.sum()
+    real = [state.make(cfg) for _ in range(case["n"])]
+    ghost = Counter()
+    for i in range(case["n"]):
+        draws = rng.choice(len(vocab), case["stream"], p=pz).tolist()
+        for b in range(0, len(draws), 500):
+            batch = [vocab[j] for j in draws[b: b + 500]]
+            if (b // 500) % 2:
+                real[i].update(dict(Counter(batch)))
+            else:
+                real[i].update(batch)
+            for k in batch:
+                ghost[ident(k, L)] += 1
+    for i in range(1, case["n"]):
+        mon.api(real[0].merge, real[i])
+    pr = prober(cfg)
+    ids = list(ghost)
+    cells = {k: pr.cells(k) for k in ids}
+    pr.cache.clear()
+    return real[0], ghost, cells, ids
